@@ -296,7 +296,11 @@ Inductive Path (fat : list N) : N -> list N -> N -> Prop :=
 Record container := {
   c_ss : N;                                  (* 512 or 4096 *)
   c_storages : list (list N);                (* names of storage objects (no content) *)
-  c_streams : list (list N * list N)         (* name (Unicode scalars), content *)
+  c_streams : list (list N * list N);        (* name (Unicode scalars), content *)
+  c_parents : list N                         (* hierarchy: per object (the storages, then the streams,
+                                                in the order of l_slots) the storage that holds it:
+                                                0 = the root storage, j >= 1 = the j-th name of
+                                                c_storages; objects beyond the list are in the root *)
 }.
 
 Record layout := {
@@ -311,7 +315,12 @@ Record layout := {
   l_slots : list N;            (* directory slot of every storage, then of every stream (>= 1) *)
   l_pad : N;                   (* filler byte of free sectors and of the tail of last sectors *)
   l_size_hi : N;               (* version 3: upper half of the 64-bit size field (ignored garbage) *)
-  l_empty_start : N            (* start-sector field of zero-length streams (ENDOFCHAIN, 0, FREESECT, …) *)
+  l_empty_start : N;           (* start-sector field of zero-length streams (ENDOFCHAIN, 0, FREESECT, …) *)
+  l_links : list (N * N * N)   (* (left sibling, right sibling, child) directory ids written at offsets
+                                  68 / 72 / 76 of the root entry, then of every storage, then of every
+                                  stream (order of l_slots); entries beyond the list: NOSTREAM x 3.
+                                  calamine never reads them, so they are not constrained by
+                                  valid_layoutb; legal_treeb says when they are a legal MS-CFB tree *)
 }.
 
 Definition ROOT_NAME : list N := [82; 111; 111; 116; 32; 69; 110; 116; 114; 121]. (* "Root Entry" *)
@@ -378,12 +387,14 @@ Definition items c l : list (list N * N * N * N) :=       (* name, object type, 
   map (fun n => (n, 1, 0, 0)) (c_storages c) ++
   map (fun p => (fst (fst p), 2, hd (l_empty_start l) (snd p), lenN (snd (fst p)))) (stream_chains c l).
 
-Definition encode_entry (ss hi : N) (it : list N * N * N * N) : list N :=
+Definition NOLINKS : N * N * N := (FREESECT, FREESECT, FREESECT).   (* NOSTREAM = 0xFFFFFFFF *)
+Definition encode_entry (ss hi : N) (lk : N * N * N) (it : list N * N * N * N) : list N :=
   let '(name, typ, start, size) := it in
+  let '(lft, rgt, chd) := lk in
   let units := utf16_encode name in
   pad_to 64 0 (bytes_le_of_units units) ++
   le16 (if typ =? 0 then 0 else 2 * (N.of_nat (length units) + 1)) ++ [typ; 1] ++
-  le32 FREESECT ++ le32 FREESECT ++ le32 FREESECT ++ repeat 0 36 ++
+  le32 lft ++ le32 rgt ++ le32 chd ++ repeat 0 36 ++
   le32 start ++ (if ss =? 512 then le32 size ++ le32 hi else le64 size).
 
 Definition root_item (l : layout) : list N * N * N * N :=
@@ -398,12 +409,15 @@ Definition dir_item_of (root : list N * N * N * N) (tbl : list (N * (list N * N 
        | Some it => it
        | None => unused_item
        end.
-Definition dir_entry_of (ss hi : N) root tbl (i : N) : list N :=
-  encode_entry ss (if i =? 0 then 0 else hi) (dir_item_of root tbl i).
+Definition link_of (ltbl : list (N * (N * N * N))) (i : N) : N * N * N :=
+  match assocN i ltbl with Some x => x | None => NOLINKS end.
+Definition dir_entry_of (ss hi : N) root tbl ltbl (i : N) : list N :=
+  encode_entry ss (if i =? 0 then 0 else hi) (link_of ltbl i) (dir_item_of root tbl i).
 Definition slot_table c l := combine (l_slots l) (items c l).
+Definition link_table (l : layout) : list (N * (N * N * N)) := combine (0 :: l_slots l) (l_links l).
 Definition dir_item c l : N -> list N * N * N * N := dir_item_of (root_item l) (slot_table c l).
 Definition dir_entry c l : N -> list N :=
-  dir_entry_of (c_ss c) (l_size_hi l) (root_item l) (slot_table c l).
+  dir_entry_of (c_ss c) (l_size_hi l) (root_item l) (slot_table c l) (link_table l).
 Definition dir_bytes c l : list N := flat_map (dir_entry c l) (seqN (nslots c l)).
 
 (* mini stream *)
@@ -456,6 +470,25 @@ Definition valid_nameb (n : list N) : bool :=
 
 Definition all_names (c : container) : list (list N) := c_storages c ++ map fst (c_streams c).
 
+(* hierarchy: the storage holding object k (k-th of all_names) *)
+Definition parent_of (c : container) (k : nat) : N := nth k (c_parents c) 0.
+Definition item_keys (c : container) : list (N * list N) :=
+  combine (map (parent_of c) (seq 0 (length (all_names c)))) (all_names c).
+Fixpoint mem_key (x : N * list N) (l : list (N * list N)) : bool :=
+  match l with [] => false | y :: r => ((fst y =? fst x) && list_eqb (snd y) (snd x)) || mem_key x r end.
+Fixpoint nodup_keyb (l : list (N * list N)) : bool :=
+  match l with [] => true | x :: r => negb (mem_key x r) && nodup_keyb r end.
+(* MS-CFB: names are unique among the children of ONE storage (not over the whole file); every
+   parent is the root or a storage, and the parent of the j-th storage is the root or one of the
+   storages before it (no cycle).  With c_parents = [] this is "all names distinct". *)
+Definition hier_okb (c : container) : bool :=
+  let ns := N.of_nat (length (c_storages c)) in
+  forallb (fun p => p <=? ns) (c_parents c) &&
+  forallb (fun j => parent_of c j <=? N.of_nat j) (seq 0 (length (c_storages c))) &&
+  nodup_keyb (item_keys c).
+(* the stronger condition the flat lookup of calamine is always right under *)
+Definition names_uniqueb (c : container) : bool := nodup_listb (all_names c).
+
 Definition stream_okb (ss : N) (p : list N * list N * list N) : bool :=
   let '((_, b), ch) := p in
   let unit := if is_big b then ss else 64 in
@@ -475,7 +508,7 @@ Definition valid_layoutb (c : container) (l : layout) : bool :=
   nodupb (l_slots l) && forallb (fun s => (1 <=? s) && (s <? nsl)) (l_slots l) &&
   (length (l_slots l) =? length (c_storages c) + length (c_streams c))%nat &&
   (length (l_chains l) =? length (c_streams c))%nat &&
-  forallb valid_nameb (all_names c) && nodup_listb (all_names c) &&
+  forallb valid_nameb (all_names c) && hier_okb c &&
   forallb (stream_okb ss) (stream_chains c l) &&
   nodupb minis && forallb (fun m => m <? l_nmini l) minis &&
   (l_nmini l <=? N.of_nat (length (l_minifat_ids l)) * epf ss) &&
@@ -490,3 +523,141 @@ Definition spec_stream (c : container) (name : list N) : option (list N) :=
   | Some p => Some (snd p)
   | None => None
   end.
+
+(* ================================================================== duplicate names, Xls::new *)
+(* MS-CFB names are unique per storage only, and the position of an entry in the directory ARRAY
+   is free (the hierarchy is carried by the child / sibling ids).  Cfb::get_stream and
+   Cfb::has_directory scan the flat array: the entry reached for a name is the one in the LOWEST
+   directory slot among all the objects carrying that name, whatever storage holds it and whatever
+   its type.  [first_slot] computes that slot from the container and the layout. *)
+Definition item_name (it : list N * N * N * N) : list N := fst (fst (fst it)).
+Fixpoint min_slot (n : list N) (tbl : list (N * (list N * N * N * N))) : option N :=
+  match tbl with
+  | [] => None
+  | (s, it) :: r =>
+    if list_eqb (item_name it) n then
+      match min_slot n r with Some s' => Some (N.min s s') | None => Some s end
+    else min_slot n r
+  end.
+Definition first_slot (c : container) (l : layout) (n : list N) : option N := min_slot n (slot_table c l).
+
+(* the directory slot of the k-th stream *)
+Definition stream_slot (c : container) (l : layout) (k : nat) : option N :=
+  nth_error (l_slots l) (length (c_storages c) + k).
+
+(* Xls::parse_workbook:
+     cfb.get_stream("Workbook", &mut reader).or_else(|_| cfb.get_stream("Book", &mut reader))?
+   ANY error of the first lookup (not only StreamNotFound) leads to the second one.  After an I/O
+   error the real sector cache may have grown; a sector read depends only on the file body
+   (Cfb_proofs.get_in_body), so the second lookup is modelled on the state before the first. *)
+Definition WORKBOOK : list N := [87; 111; 114; 107; 98; 111; 111; 107].
+Definition BOOK : list N := [66; 111; 111; 107].
+Definition workbook_or_book (c : cfb) (r : list N) : outcome (list N) :=
+  match get_stream c WORKBOOK r with
+  | Ok (b, _, _) => Ok b
+  | Err _ => do (b, _, _) <- get_stream c BOOK r; Ok b
+  | Panic => Panic
+  | OutOfFuel => OutOfFuel
+  end.
+(* Xls::new up to the bytes handed to the BIFF parser (the VBA project, read before when a
+   directory _VBA_PROJECT_CUR exists, does not change which bytes these are) *)
+Definition xls_workbook_stream (fuel : nat) (file : list N) : outcome (list N) :=
+  do (c, r) <- cfb_new fuel file; workbook_or_book c r.
+
+(* specification (Excel): the workbook is the stream "Workbook" of the ROOT storage; a file written
+   for Excel 5.0/95 has "Book" instead; a dual-format file has both and "Workbook" is preferred *)
+Fixpoint root_stream_from (c : container) (n : list N) (k : nat) (ss : list (list N * list N))
+  : option (nat * list N) :=
+  match ss with
+  | [] => None
+  | (n', b) :: r =>
+    if list_eqb n' n && (parent_of c (length (c_storages c) + k) =? 0) then Some (k, b)
+    else root_stream_from c n (S k) r
+  end.
+Definition root_stream (c : container) (n : list N) : option (nat * list N) :=
+  root_stream_from c n 0 (c_streams c).
+Definition spec_workbook (c : container) : option (nat * list N) :=
+  match root_stream c WORKBOOK with Some x => Some x | None => root_stream c BOOK end.
+
+(* the slot the two lookups of parse_workbook end on / the slot of the stream Excel means *)
+Definition lookup_slot (c : container) (l : layout) : option N :=
+  match first_slot c l WORKBOOK with Some s => Some s | None => first_slot c l BOOK end.
+Definition wanted_slot (c : container) (l : layout) : option N :=
+  match spec_workbook c with Some (k, _) => stream_slot c l k | None => None end.
+
+(* known class 2 (shadowed_workbook): the container has a workbook stream in its root storage but
+   the flat lookup ends on another entry: an object named Workbook (or Book) of ANOTHER storage
+   — an embedded workbook MBD…/Workbook — sits in a lower directory slot, or the root only has
+   Book while some other storage has a Workbook. *)
+Definition known_C13 (c : container) (l : layout) : option N :=
+  match wanted_slot c l, lookup_slot c l with
+  | Some w, Some s => if s =? w then None else Some 2
+  | _, _ => None
+  end.
+
+(* ------------------------------------------------------------------ legal MS-CFB trees *)
+(* MS-CFB 2.6.4: the children of a storage form a binary search tree ordered by (UTF-16 length,
+   then upper-cased code units); here upper-casing covers a-z only (the simple case mapping of
+   other letters is not modelled: such names compare by code unit).  Colours are not checked
+   (every entry is written black). *)
+Definition upper_unit (u : N) : N := if (97 <=? u) && (u <=? 122) then u - 32 else u.
+Fixpoint units_ltb (a b : list N) : bool :=
+  match a, b with
+  | [], [] => false
+  | [], _ => true
+  | _, [] => false
+  | x :: a', y :: b' => if x <? y then true else if y <? x then false else units_ltb a' b'
+  end.
+Definition cfb_name_ltb (a b : list N) : bool :=
+  let ua := map upper_unit (utf16_encode a) in
+  let ub := map upper_unit (utf16_encode b) in
+  if (length ua <? length ub)%nat then true
+  else if (length ub <? length ua)%nat then false else units_ltb ua ub.
+
+(* in-order walk of the sibling tree below directory id s; [budget] bounds the number of entries
+   visited (a cycle or a shared node runs out of it), [fuel] is the structural argument *)
+Fixpoint tree_walk (fuel : nat) (lk : N -> N * N * N) (nsl : N) (s : N) (budget : nat)
+  : option (list N * nat) :=
+  if s =? FREESECT then Some ([], budget)
+  else
+    match fuel, budget with
+    | S f, S bd =>
+      if nsl <=? s then None else
+      let '(lft, rgt, _) := lk s in
+      match tree_walk f lk nsl lft bd with
+      | Some (a, bd1) =>
+        match tree_walk f lk nsl rgt bd1 with
+        | Some (b, bd2) => Some (a ++ s :: b, bd2)
+        | None => None
+        end
+      | None => None
+      end
+    | _, _ => None
+    end.
+Fixpoint sorted_namesb (ns : list (list N)) : bool :=
+  match ns with
+  | a :: ((b :: _) as r) => cfb_name_ltb a b && sorted_namesb r
+  | _ => true
+  end.
+Definition storage_slot (l : layout) (p : N) : N :=
+  if p =? 0 then 0 else nth (N.to_nat p - 1) (l_slots l) 0.
+Definition children_slots (c : container) (l : layout) (p : N) : list N :=
+  map fst (filter (fun x => snd x =? p)
+                  (combine (l_slots l) (map (parent_of c) (seq 0 (length (l_slots l)))))).
+Definition legal_treeb (c : container) (l : layout) : bool :=
+  let ltbl := link_table l in
+  let lk := link_of ltbl in
+  let nsl := N.of_nat (nslots c l) in
+  let names := combine (l_slots l) (all_names c) in
+  let nst := length (c_storages c) in
+  (* a stream has no child *)
+  forallb (fun s => let '(_, _, ch) := lk s in ch =? FREESECT) (skipn nst (l_slots l)) &&
+  forallb (fun p =>
+    let '(_, _, ch) := lk (storage_slot l p) in
+    let kids := children_slots c l p in
+    match tree_walk (S (length kids)) lk nsl ch (S (length kids)) with
+    | Some (vis, _) =>
+      (length vis =? length kids)%nat && nodupb vis && forallb (fun s => memN s vis) kids &&
+      sorted_namesb (map (fun s => match assocN s names with Some n => n | None => [] end) vis)
+    | None => false
+    end) (seqN (S nst)).
